@@ -73,6 +73,31 @@ def signature_and_fanout(ctx):
                     ctx.find(P, 'RF2-para-fanout', f, 'fanout:%d:%s' % (num, fail_at), m.loc(f, m.funcs[f].line), '%s: %s' % (site, bad))
                 else:
                     ctx.ob(P, 'RF2-para-fanout', f, site, 'ok')
+        # a gap in the optional sub-indices (CODictFind returns 0 for one of them) is skipped: the groups behind it are
+        # still processed
+        for gap in (0, 1, 2):
+            num = 5
+            inputs = {'obj->Key': (idx << 16) | 0x100, 'obj->Data': 1, '*buffer': sig, 'out:CODictRdByte:2': num,
+                      'call:CODictFind': 1, 'call:CODictFind#%d' % gap: 0, 'call:' + action: NONE}
+            trs = _run(m, f, inputs)
+            site = '%04Xh:01 with %d groups, sub-index %d missing' % (idx, num, gap + 2)
+            bad = None
+            for t in trs:
+                acts = [c for c in t.calls() if c[1] == action]
+                finds = [c[2][1] for c in t.calls() if c[1] == 'CODictFind']
+                if len(finds) != num - 1:
+                    bad = 'looks up %d sub-indices, required all %d behind sub-index 1' % (len(finds), num - 1)
+                elif len(acts) != num - 2:
+                    bad = '%d groups processed, required %d (every present group)' % (len(acts), num - 2)
+                elif t.ret != NONE:
+                    bad = 'returns %s' % t.ret
+            if not trs:
+                bad = 'no path'
+            if bad:
+                ctx.ob(P, 'RF2-para-fanout', f, site, None)
+                ctx.find(P, 'RF2-para-fanout', f, 'gap:%d' % gap, m.loc(f, m.funcs[f].line), '%s: %s' % (site, bad))
+            else:
+                ctx.ob(P, 'RF2-para-fanout', f, site, 'gap skipped, later groups processed')
         # single group: exactly the addressed group (its own Data)
         trs = _run(m, f, {'obj->Key': (idx << 16) | 0x300, 'obj->Data': 0x7777, '*buffer': sig, 'out:CODictRdByte:2': 4,
                           'call:' + action: NONE, 'call:CODictFind': 1})
@@ -270,7 +295,7 @@ def load_points(ctx):
                     bad = 'reload failure is not stored in the node error'
             if bad:
                 ctx.ob(P, 'RF8-para-load', f, site, None)
-                ctx.find(P, 'RF8-para-load', f, 'nmtreset:%d:%d' % (rt, err), m.loc(f, m.funcs[f].line), '%s: %s' % (site, bad))
+                ctx.find(P + ['C20'], 'RF8-para-load', f, 'nmtreset:%d:%d' % (rt, err), m.loc(f, m.funcs[f].line), '%s: %s' % (site, bad))
             else:
                 ctx.ob(P, 'RF8-para-load', f, site, 'ok')
     # NVM results are never discarded on the store / load path
